@@ -127,6 +127,12 @@ func TestC13(t *testing.T) {
 			t.Fatal(err)
 		}
 		rec.Eval()
+		if strings.HasPrefix(c.Note, "size:") {
+			if msg := checkSize(c); msg != "" {
+				rec.Violation("size", c, msg)
+			}
+			return
+		}
 		if msg := checkRoute(c); msg != "" {
 			rec.Violation("program", c, msg)
 		}
@@ -134,6 +140,32 @@ func TestC13(t *testing.T) {
 	}
 
 	defer func() { rec.Set("n_recompilation_dumps_differ", float64(recompileDiffers)) }()
+
+	// size sweeps: chunks built by construction whose size along one dimension
+	// (function nesting, constants, upvalues, code length, line numbers, ...)
+	// is swept across the compiler's and the dump format's limits; the chunk
+	// run directly must behave like the chunk run through dump and load
+	idx := 0
+	for _, tpl := range sizeTemplates {
+		for _, n := range sizeSweep(tpl.max, rec.Thorough()) {
+			idx++
+			if !rec.Mine(idx) {
+				continue
+			}
+			// the source is regenerated from the note on replay
+			c := progcheck.Case{Note: "size:" + tpl.name + fmt.Sprintf(":%d", n)}
+			rec.Eval()
+			rec.Class("size:" + tpl.name)
+			if n >= 64 {
+				rec.NonTrivial(c.Note)
+			}
+			if msg := checkSize(c); msg != "" {
+				rec.Violation("size", c, fmt.Sprintf("%s with n=%d: %s\n--- chunk ---\n%s", tpl.name, n, msg, clipSrc(tpl.gen(n))))
+				return
+			}
+		}
+	}
+
 	ShrinkTime = "1ms"
 	prof := luagen.General
 	prof.Name, prof.Closures, prof.Varargs, prof.Coroutines = "closures", 14, 8, 2
